@@ -76,6 +76,7 @@ type Scenario struct {
 	Routines   [][]Call `json:"routines"`    // per goroutine call list
 	SharedOpts bool     `json:"shared_opts"` // one []solver.Option with spare capacity shared by all provers
 	NbTasks    int      `json:"nb_tasks"`
+	ShareMode  int      `json:"share_mode"` // with SharedOpts: 0 solver-option slice, 1 one ProverOption value, 2 one []ProverOption slice
 	MaxProcs   int      `json:"max_procs"`
 	Reps       int      `json:"reps"`
 	Background bool     `json:"background"` // frontend.Compile / test.IsSolved of other circuits running meanwhile
@@ -185,7 +186,9 @@ type shared struct {
 	opts     []solver.Option
 	inflight int32
 	maxOver  int32
-	done     int64 // completed calls: the watchdog's notion of progress
+	popt     backend.ProverOption   // one option value shared by every prover call
+	popts    []backend.ProverOption // one option slice (spare capacity) shared by every prover call
+	done     int64                  // completed calls: the watchdog's notion of progress
 }
 
 func errClass(err error) string {
@@ -204,7 +207,17 @@ func errClass(err error) string {
 
 func (sh *shared) proverOpts() []backend.ProverOption {
 	if sh.s.SharedOpts {
-		return []backend.ProverOption{backend.WithSolverOptions(sh.opts...)}
+		// three ways of sharing what the caller owns: the solver-option slice
+		// (fresh ProverOption per call), the ProverOption value itself, and
+		// the []ProverOption slice (with spare capacity) passed variadically
+		switch sh.s.ShareMode {
+		case 0:
+			return []backend.ProverOption{backend.WithSolverOptions(sh.opts...)}
+		case 1:
+			return []backend.ProverOption{sh.popt}
+		default:
+			return sh.popts
+		}
 	}
 	if sh.s.NbTasks > 0 {
 		return []backend.ProverOption{backend.WithSolverOptions(solver.WithNbTasks(sh.s.NbTasks))}
@@ -350,6 +363,9 @@ func childMain(path string) {
 		nt = 4
 	}
 	sh.opts = append(sh.opts, solver.WithNbTasks(nt))
+	sh.popt = backend.WithSolverOptions(sh.opts...)
+	sh.popts = make([]backend.ProverOption, 0, 4)
+	sh.popts = append(sh.popts, sh.popt)
 	for i := 0; i < s.NbWit; i++ {
 		p, err := groth16.Prove(sh.r1cs, sh.g16pk, sh.wits[i])
 		if err != nil {
@@ -564,7 +580,7 @@ func tail(s string, n int) string {
 func run(s Scenario, rec *ev.Recorder) ev.Outcome {
 	out, kind, detail := runChild(s)
 	classes := []string{"curve:" + s.Curve, fmt.Sprintf("lookup:%v", s.Lookup), fmt.Sprintf("commit:%v", s.Commit),
-		fmt.Sprintf("sharedopts:%v", s.SharedOpts), fmt.Sprintf("goroutines:%d", len(s.Routines)), fmt.Sprintf("maxprocs:%d", s.MaxProcs), "child:" + kind}
+		fmt.Sprintf("sharedopts:%v/%d", s.SharedOpts, s.ShareMode), fmt.Sprintf("goroutines:%d", len(s.Routines)), fmt.Sprintf("maxprocs:%d", s.MaxProcs), "child:" + kind}
 	switch kind {
 	case "setup":
 		return ev.Outcome{Discard: true, DiscardWhy: "child setup failed: " + detail}
@@ -627,6 +643,7 @@ func genScenario() *rapid.Generator[Scenario] {
 			NbWit:      rapid.IntRange(2, 5).Draw(t, "nbwit"),
 			SharedOpts: rapid.Bool().Draw(t, "sharedopts"),
 			NbTasks:    rapid.SampledFrom([]int{0, 1, 2, 16}).Draw(t, "nbtasks"),
+			ShareMode:  rapid.IntRange(0, 2).Draw(t, "sharemode"),
 			MaxProcs:   rapid.SampledFrom([]int{2, 4, 16}).Draw(t, "maxprocs"),
 			Background: rapid.Bool().Draw(t, "background"),
 			Decoded:    rapid.Bool().Draw(t, "decoded"),
@@ -655,6 +672,33 @@ func genScenario() *rapid.Generator[Scenario] {
 }
 
 const rule = "rapid-generated scenarios: one compiled R1CS + sparse system (witness-dependent lookup table, commitment, hints), Groth16 and PLONK keys, proofs and one []solver.Option with spare capacity are SHARED by 2-8 goroutines each running 1-4 drawn calls (Solve / Prove / Verify with distinct satisfying and non-satisfying witnesses, original and restored-from-bytes system), optionally while other circuits are compiled and test-solved in the background; GOMAXPROCS 2/4/16; each scenario repeated (quick 10x, thorough 60x) in a child process. Oracle: every concurrent call returns what the same call returned alone (verdict; solution digest for deterministic systems; proof verifies under its own public witness and no other), a sequential pass afterwards still equals the baseline, the child neither crashes, reports a data race (race build in the thorough tier) nor wedges (reproduced twice). Non-trivial: >= 2 calls overlapped in time on the shared objects and the system has a stateful instruction, a commitment or the shared option slice. Distinct: SHA-256 of the scenario JSON."
+
+// TestSharedProverOptions: directed scenarios in which every goroutine proves
+// (satisfying witnesses, commitment circuit) with the SAME caller-owned option
+// objects — the solver-option slice, one ProverOption value, one []ProverOption
+// slice — for both backends: what a prover appends for its own use (the
+// commitment hint override) must never reach another prover.
+func TestSharedProverOptions(t *testing.T) {
+	rec := ev.Get(ID)
+	for _, op := range []string{"prove-g16", "prove-plonk"} {
+		for mode := 0; mode <= 2; mode++ {
+			for _, lookup := range []bool{false, true} {
+				if lookup && (ev.Tier() == "quick" && mode != int(ev.Seed()%3)) {
+					continue
+				}
+				s := Scenario{Curve: "bn254", Lookup: lookup, Commit: true, Hints: true, NbWit: 3, SharedOpts: true, ShareMode: mode,
+					NbTasks: 2, MaxProcs: 16, Reps: ev.N(10, 40)}
+				for g := 0; g < 4; g++ {
+					s.Routines = append(s.Routines, []Call{{Op: op, Wit: g % 3}, {Op: op, Wit: (g + 1) % 3}})
+				}
+				rec.Begin("scenario", s)
+				o := run(s, rec)
+				o.Classes = append(o.Classes, "directed:shared-prover-options")
+				rec.Report(t, "scenario", s, o)
+			}
+		}
+	}
+}
 
 func TestConcurrentUse(t *testing.T) {
 	rec := ev.Get(ID)
